@@ -38,7 +38,7 @@ static void spit(const std::string& path, const std::vector<uint8_t>& v) {
     fclose(f);
 }
 
-static std::string run_child(std::function<void(FILE*)> f, std::string& status, unsigned seconds = 30) {
+static std::string run_child(std::function<void(FILE*)> f, std::string& status, unsigned seconds = 60) {
     int fd[2];
     status = "ok";
     if (pipe(fd) != 0) {
